@@ -18,6 +18,7 @@ claimed = {
  "C08": ("Map-iteration order as a nondeterministic choice: two State.Commit calls over a populated universe are executed under every iteration order of every map range met (one deviating site per path); the ordered database writes must be identical. A difference is confirmed natively by repeated runs showing differing IAVL root hashes.", "§4 C08", "PARTIAL: map-order part of the property only, concrete data; goroutine scheduling, GOMAXPROCS/GOGC, separate processes are not exercised (block execution starts no goroutines)."),
  "C09": ("Persist-then-reload step for the app DB: genesis block plus one block, with or without a restart, symbolic emission/price; a fresh instance over the same store must answer every getter like the continuing one.", "§4 C09", "State-module stores are covered only as listed in evidence."),
  "C10": ("The app-DB write sequence of the real Blockchain.Commit is executed against a write-budget store for every crash point; a restarted AppDB/Info() over the surviving prefix is checked against the recovery contract (no mixed height/hash pair; a reported height carries its own emission and price; h-1 keeps its own).", "§4 C10", "PARTIAL: application-level write order only; IAVL crash atomicity, LevelDB durability and the Tendermint handshake are by contract. Two open findings (F7, F8)."),
+ "C11": ("One populated state (every module, symbolic amounts, one used-check hash with a symbolic first byte) is committed, exported, validated with AppState.Verify, imported into an empty chain and exported again; the two exports must be equal section by section and every module getter must answer alike on both chains.", "§4 C11", "PARTIAL: one populated universe at one height, not every history; stakes, pools and orders concrete; amino JSON of the genesis not executed. One defect found and fixed (F9: halt votes were not imported)."),
  "C12": ("Formula layer of the four bancor functions executed symbolically with big.Float over exact reals and math.Pow as a constrained uninterpreted function: results non-negative, sale return <= reserve, zero in -> zero out, selling the whole supply returns the reserve, crr=100 branches equal the exact integer formulas, and the exponent passed to Pow is the bonding-curve exponent.", "§4 C12", "PARTIAL: the numerical accuracy of math/pow.go, exp.go, log.go and the 100-bit rounding (bounded relative error, monotonicity under rounding, buy-then-sell) is outside; it cannot be encoded within reach of the solvers."),
  "C13": ("Bounded symbolic execution of the real swapV2.go kernels from an arbitrary symbolic pool; assertions are SMT queries over unbounded integers.", "§4 C13", "Shape bound: one pool, one operation (inductive step)."),
  "C16": ("BeginBlock maturity loop from symbolic frozen funds (plain unbond, pending move, later heights, other candidate) with and without byzantine evidence: matured unbonds reach the owner's balance, moves reach the target candidate and never the balance, nothing at other heights is released.", "§4 C16", "Transaction-side period/target gates (Unbond, MoveStake, Lock, LockStake Run) are covered only as listed in evidence."),
@@ -25,6 +26,7 @@ claimed = {
  "C19": ("EndBlock accumulation over every present/absent/missing status pattern and symbolic stakes, reward, fees: present validators accrue floor(pot*stake/total), others nothing, accrued + remainder = pot; payout block: paid never exceeds accrued.", "§4 C19", "Locked-stake (x3) bonus branch of PayRewardsV5Fix is outside the registered bound."),
  "C20": ("isApplicationHalted / isUpdateCommissionsBlockV2 / isUpdateNetworkBlockV2 over symbolic validator stakes and every vote pattern against the integer predicate 3*voted > 2*total.", "§4 C20", "big.Float over exact reals in the quick tier; counterexamples are replayed natively with real big.Float."),
  "C28": ("EndBlock emission bookkeeping: below the cap emission grows by exactly the safe reward and the part validators do not get is credited to the zero address; at the cap nothing is minted.", "§4 C28", "Reward update window of BeginBlock and UpdatePriceFix are covered only as listed in evidence."),
+ "C21": ("Symbolic RunTx of RedeemCheck with abstract check cryptography (issuer by signer table, lock/proof as abstract signatures; natively real secp256k1): acceptance implies due block not passed, network id, proof made with the lock's password for the redeemer's address, gas coin and gas price of the check, check unused; exactly coin and value move from issuer to redeemer, the fee leaves the issuer in the check's gas coin, third parties untouched; the check is marked used and a second redemption is rejected; a used check survives export/import for every first hash byte.", "§4 C21", "Pool-priced gas coins are outside the registered bound."),
  "C22": ("Symbolic RunTx of MintToken for the token, the bancor coin and a pool token, by the ticker owner or another account: accepted only for the owner of a mintable token, within max supply, by exactly the value; pool tokens (owner nil) are not mintable by a transaction.", "§4 C22", "PARTIAL: create/recreate/edit-owner/id-assignment harnesses are covered only as listed in evidence."),
  "C24": ("The real eventsStore over the KVModel: a batch with one event of each compacted kind and symbolic amounts, committed after 0..2 earlier batches and optionally a store restart, loads back unchanged from the same and from a fresh store; earlier batches stay loadable.", "§4 C24", "PARTIAL: id tables of at most 3 entries; tmjson as field box."),
  "C26": ("Two-delivery harness on RunTx: the same signed bytes delivered twice; the second delivery must be rejected and change no balance of the payer nor the reward pool, whatever the first returned.", "§4 C26", "Send transactions paid in the base coin; the failed-first-delivery case is a recorded open finding (F4)."),
@@ -37,7 +39,7 @@ not_applicable = {
  "C29": "state sync: every component on the path (zlib, protobuf, cosmos-sdk snapshot store, IAVL exporter/importer, a goroutine) would be a stub, leaving no repository logic under the solver (DESIGN.md §5)",
 }
 pending = {k: "not claimed yet in this revision: harnesses under construction (see DESIGN.md); no check is registered, so nothing is asserted about it" for k in
-           ["C11","C14","C15","C17","C21"]}
+           ["C14","C15","C17"]}
 
 def main():
     checks = []
